@@ -47,7 +47,7 @@ def run_case(case, prefix):
             sc.wait_until(lambda: len(w.server_out[0]) > 0, "server bytes")
             w.deliver(0, len(w.server_out[0]))
 
-    status = sc.run_phase([("net", net)], timeout=30.0)
+    status = sc.run_phase([("net", net)], timeout=600.0)
     setup_points = len(sc.points)
     setup_ok = (w.state() == "transport" and w.responders[0].phase == "transport"
                 and any(type(e).__name__ == "SuccessProtocolEntity" for e in w.app.received))
@@ -83,7 +83,7 @@ def run_case(case, prefix):
         if real_ping:
             sc.tick(1)
         try:
-            status = sc.run_phase(fns, timeout=30.0)
+            status = sc.run_phase(fns, timeout=600.0)
         except (S.HarnessStuck, S.ReplayDivergence) as e:
             error = e
         blocked = [(t.name, t.wait_desc) for t in sc.blocked()]
